@@ -1,6 +1,7 @@
 package main
 
 import (
+	"go/token"
 	"go/types"
 	"strings"
 
@@ -10,7 +11,8 @@ import (
 // Round-4 rules (written after seeds C10r4/10..12 and C16r4/11..12 were missed).
 
 // c10Round4: three structural necessary conditions of "block processing never fails".
-func c10Round4(c *Ctx) {
+func c10Round4(c *Ctx, g *CG) {
+	c10GovernanceModel(c, g)
 	// (a) seed C10r4/10: what governance EndBlock takes out of the governance deposits pool for a closing proposal is the
 	// amount recorded in that proposal (the amount that was put into the pool for it at submission). Any other amount
 	// (e.g. the current MinProposalDeposit parameter, which a passed change-parameters proposal can raise) can exceed what
@@ -222,6 +224,440 @@ func c16Round4(c *Ctx) {
 	// transaction of the batch. The consumers (transaction pool) index the batch by the position of the result; a
 	// response with more results than transactions panics there with an index out of range.
 	if fn := c.needFn("C16.frames", "runtime/host.(*richRuntime).CheckTx"); fn != nil {
+		c16BodyKinds(c)
+		c16CheckTxMeta(c)
+		c16Snapshots(c)
 		c.SuccessRequiresCond("C16.frames", fn, "len(results) == len(batch)", `^builtin\.len\(.*RuntimeCheckTxBatchResponse\.Results\) == builtin\.len\(param:batch\)$`, "a runtime response with a different number of results than transactions must be rejected: the transaction pool indexes the batch by result position and panics (index out of range) on a surplus result")
+	}
+}
+
+// c10GovernanceModel (F52): Runtime.StakingAddress answers (nil, false) for the consensus-layer governance model, which
+// is a legal model of a runtime in the genesis document. On the Begin/EndBlock fatal cone "no address" is treated as
+// impossible and returned as an error, which halts every node; so every call there is made only for runtimes whose
+// model is not the consensus one (the key manager and the roothash applications skip such runtimes first).
+func c10GovernanceModel(c *Ctx, g *CG) {
+	const rule = "C10.govmodel"
+	var entries []*ssa.Function
+	for _, key := range []string{
+		"consensus/cometbft/api.(Application).BeginBlock", "consensus/cometbft/api.(Application).EndBlock",
+		"consensus/cometbft/api.(Extension).BeginBlock", "consensus/cometbft/api.(Extension).EndBlock",
+	} {
+		for _, f := range g.impls[key] {
+			if f.Blocks != nil && strings.HasPrefix(short(fpkgPath(f)), "consensus/cometbft/apps/") {
+				entries = appendUniqueFn(entries, f)
+			}
+		}
+	}
+	cone, _ := g.FatalCone(entries, outsideConeUniverse)
+	n := 0
+	for _, f := range cone {
+		if f.Blocks == nil {
+			continue
+		}
+		ev := CallsTo(f, "rt.StakingAddress()", "registry/api.(*Runtime).StakingAddress", "")
+		if ev.Empty() {
+			continue
+		}
+		n++
+		// the other accepted form: "no address" is not turned into an error (nothing that makes an error is reachable
+		// from the !ok branch before the next call)
+		benign := true
+		for _, in := range ev.Ins {
+			call := in.(ssa.CallInstruction)
+			edges, found := BoolEdges(call, 1, false)
+			if !found {
+				benign = false
+				break
+			}
+			mk := func(x ssa.Instruction) bool {
+				if cc, ok := x.(*ssa.Call); ok {
+					nm := calleeNameCommon(&cc.Call)
+					return nm == "fmt.Errorf" || nm == "errors.New"
+				}
+				if r, ok := x.(*ssa.Return); ok {
+					if e := retErrVal(r); e != nil && !isNilConst(e) {
+						if _, isPhi := e.(*ssa.Phi); !isPhi {
+							return true
+						}
+					}
+				}
+				return false
+			}
+			if len(edges) > 0 && Reach(f, nil, edges, mk, NewCut().AddInstr(in)) != nil {
+				benign = false
+			}
+		}
+		if benign {
+			c.Analysed[fname(f)] = true
+			c.OK(rule, fname(f)+":governance model != consensus⊢rt.StakingAddress()", c.P.InstrPos(ev.Ins[0]), "a missing staking address is not turned into an error")
+			continue
+		}
+		c.DominatedByCond(rule, f, "governance model != consensus", `\.GovernanceModel != 3$`, ev, "a runtime with consensus-layer governance (legal in the genesis document) has no staking address; on the Begin/EndBlock fatal cone the missing address is returned as an error and halts the chain (F52), so such runtimes are skipped before the address is asked for")
+	}
+	c.Floor(rule, n, 2, "functions on the Begin/EndBlock fatal cone that ask for a runtime's staking address")
+}
+
+// c16BodyKinds (F56/F57; the rule every other call site already follows): a runtime host protocol frame (protocol.Body)
+// received from the runtime is a union of optional message bodies, all pointers. Which one is set is decided by the
+// peer, so a body field of a received frame is dereferenced only where it was tested non-nil; otherwise a well-formed
+// frame of another kind (e.g. Empty) crashes the node with a nil dereference.
+func c16BodyKinds(c *Ctx) {
+	const rule = "C16.frames"
+	n, nfn := 0, 0
+	for _, fn := range c.P.ModFuncs {
+		if fn.Blocks == nil {
+			continue
+		}
+		type site struct {
+			ptr ssa.Value
+			at  ssa.Instruction
+			fld string
+		}
+		var sites []site
+		for _, b := range fn.Blocks {
+			for _, in := range b.Instrs {
+				var ptr ssa.Value
+				switch x := in.(type) {
+				case *ssa.FieldAddr:
+					ptr = x.X
+				case *ssa.UnOp:
+					if x.Op != token.MUL {
+						continue
+					}
+					if _, isPtrToStruct := derefType(x.X.Type()).Underlying().(*types.Struct); !isPtrToStruct {
+						continue
+					}
+					ptr = x.X
+				default:
+					continue
+				}
+				fld := bodyFieldOf(ptr)
+				if fld == "" {
+					continue
+				}
+				sites = append(sites, site{ptr, in, fld})
+			}
+		}
+		if len(sites) == 0 {
+			continue
+		}
+		nfn++
+		c.Analysed[fname(fn)] = true
+		for _, s := range sites {
+			n++
+			ptr := s.ptr
+			cut := nonNilCut(fn, func(subj ssa.Value) bool { return sameValue(subj, ptr, 0) })
+			inst := fname(fn) + ":" + s.fld + " tested non-nil before it is dereferenced"
+			if len(cut.Edges) > 0 && Reach(fn, nil, nil, isInstr(s.at), cut) == nil {
+				c.OK(rule, inst, c.P.InstrPos(s.at), "every path to the dereference takes the non-nil branch of a test of the same field")
+				continue
+			}
+			if guardedByCallers(c, fn, s.ptr) {
+				c.OK(rule, inst, c.P.InstrPos(s.at), "the frame is a parameter and every caller passes it only where the same field was tested non-nil")
+				continue
+			}
+			if reason, ok := c.Tabled("c16_body_kinds", fname(fn)+" "+s.fld); ok {
+				c.TabledOK(rule, inst, c.P.InstrPos(s.at), reason)
+				continue
+			}
+			c.Fail(rule, inst, c.P.InstrPos(s.at), "the "+s.fld+" body of a protocol frame is dereferenced on a path on which it was not tested non-nil: the peer decides which body a frame carries, and a well-formed frame of another kind makes this a nil pointer dereference that crashes the node")
+		}
+	}
+	c.Extra["protocol_body_dereferences"] = n
+	c.Floor(rule, nfn, 10, "functions that dereference a body of a protocol frame")
+}
+
+// bodyFieldOf: ptr is (a load of) a pointer-typed field of a runtime/host/protocol.Body; the field's name, or "".
+func bodyFieldOf(ptr ssa.Value) string {
+	switch x := ptr.(type) {
+	case *ssa.UnOp:
+		if fa, ok := x.X.(*ssa.FieldAddr); ok && x.Op == token.MUL {
+			if namedOf(derefType(fa.X.Type())) == "runtime/host/protocol.Body" {
+				if _, isPtr := x.Type().Underlying().(*types.Pointer); isPtr {
+					return fieldName(fa.X.Type(), fa.Field)
+				}
+			}
+		}
+	case *ssa.Field:
+		if namedOf(x.X.Type()) == "runtime/host/protocol.Body" {
+			if _, isPtr := x.Type().Underlying().(*types.Pointer); isPtr {
+				return fieldName(x.X.Type(), x.Field)
+			}
+		}
+	}
+	return ""
+}
+
+// nonNilCut: the edges of fn on which a nil test of a value structurally equal to ptr says "non-nil".
+func nonNilCut(fn *ssa.Function, same func(ssa.Value) bool) *Cut {
+	cut := NewCut()
+	for _, b := range fn.Blocks {
+		iff := lastIfOf(b)
+		if iff == nil {
+			continue
+		}
+		bo, ok := iff.Cond.(*ssa.BinOp)
+		if !ok || (bo.Op != token.EQL && bo.Op != token.NEQ) {
+			continue
+		}
+		var subj ssa.Value
+		if isNilConst(bo.Y) {
+			subj = bo.X
+		} else if isNilConst(bo.X) {
+			subj = bo.Y
+		} else {
+			continue
+		}
+		if !same(subj) {
+			continue
+		}
+		if bo.Op == token.NEQ {
+			cut.AddEdges(Edge{b, 0})
+		} else {
+			cut.AddEdges(Edge{b, 1})
+		}
+	}
+	return cut
+}
+
+var staticCallersCache map[*ssa.Function][]ssa.CallInstruction
+
+// guardedByCallers: ptr is a load of field F of a frame that is parameter k of fn; fn has static callers in the module
+// and each passes, as argument k, a frame whose field F was tested non-nil on every path to the call.
+func guardedByCallers(c *Ctx, fn *ssa.Function, ptr ssa.Value) bool {
+	u, ok := ptr.(*ssa.UnOp)
+	if !ok {
+		return false
+	}
+	fa, ok := u.X.(*ssa.FieldAddr)
+	if !ok {
+		return false
+	}
+	par, ok := fa.X.(*ssa.Parameter)
+	if !ok {
+		return false
+	}
+	k := -1
+	for i, p := range fn.Params {
+		if p == par {
+			k = i
+		}
+	}
+	if k < 0 {
+		return false
+	}
+	if staticCallersCache == nil {
+		staticCallersCache = map[*ssa.Function][]ssa.CallInstruction{}
+		for _, f := range c.P.ModFuncs {
+			if f.Blocks == nil {
+				continue
+			}
+			for _, call := range callsIn(f) {
+				if callee := call.Common().StaticCallee(); callee != nil {
+					staticCallersCache[callee] = append(staticCallersCache[callee], call)
+				}
+			}
+		}
+	}
+	callers := staticCallersCache[fn]
+	if len(callers) == 0 {
+		return false
+	}
+	for _, call := range callers {
+		args := call.Common().Args
+		if k >= len(args) {
+			return false
+		}
+		a := args[k]
+		caller := call.Parent()
+		cut := nonNilCut(caller, func(subj ssa.Value) bool {
+			su, ok := subj.(*ssa.UnOp)
+			if !ok {
+				return false
+			}
+			sfa, ok := su.X.(*ssa.FieldAddr)
+			return ok && sfa.Field == fa.Field && sameValue(sfa.X, a, 0)
+		})
+		if len(cut.Edges) == 0 || Reach(caller, nil, nil, isInstr(call), cut) != nil {
+			return false
+		}
+	}
+	return true
+}
+
+// c16CheckTxMeta (F57): CheckTxResult.Meta is optional on the wire and is dereferenced for every transaction that
+// checkTxBatch puts on its list of accepted ones; so a position enters that list only on paths on which the result's
+// metadata was tested non-nil (or the result was turned into an error, or it was not a success to begin with).
+func c16CheckTxMeta(c *Ctx) {
+	fn := c.needFn("C16.frames", "runtime/txpool.(*txPool).checkTxBatch")
+	if fn == nil {
+		return
+	}
+	c.Analysed[fname(fn)] = true
+	const resT = "runtime/host/protocol.CheckTxResult"
+	var targets []ssa.Instruction
+	cut := NewCut()
+	for _, b := range fn.Blocks {
+		for _, in := range b.Instrs {
+			switch x := in.(type) {
+			case *ssa.Call:
+				if bi, ok := x.Call.Value.(*ssa.Builtin); ok && bi.Name() == "append" {
+					if sl, ok := x.Type().Underlying().(*types.Slice); ok {
+						if bt, ok := sl.Elem().Underlying().(*types.Basic); ok && bt.Kind() == types.Int {
+							targets = append(targets, in)
+						}
+					}
+				}
+			case *ssa.Store:
+				if fa, ok := x.Addr.(*ssa.FieldAddr); ok && namedOf(derefType(fa.X.Type())) == resT && fieldName(fa.X.Type(), fa.Field) == "Error" {
+					cut.AddInstr(in)
+				}
+			}
+		}
+		iff := lastIfOf(b)
+		if iff == nil {
+			continue
+		}
+		cond, pol := stripNot(iff.Cond, true)
+		switch x := cond.(type) {
+		case *ssa.Call:
+			if calleeNameCommon(&x.Call) == "runtime/host/protocol.(*CheckTxResult).IsSuccess" {
+				// the edge on which the result is not a success
+				if pol {
+					cut.AddEdges(Edge{b, 1})
+				} else {
+					cut.AddEdges(Edge{b, 0})
+				}
+			}
+		case *ssa.BinOp:
+			var subj ssa.Value
+			if isNilConst(x.Y) {
+				subj = x.X
+			} else if isNilConst(x.X) {
+				subj = x.Y
+			}
+			if subj == nil || !loadsField(subj, "Meta") {
+				continue
+			}
+			if u, ok := subj.(*ssa.UnOp); ok {
+				if fa, ok := u.X.(*ssa.FieldAddr); !ok || namedOf(derefType(fa.X.Type())) != resT {
+					continue
+				}
+			}
+			nonNilIdx := 0
+			if x.Op == token.EQL {
+				nonNilIdx = 1
+			}
+			if !pol {
+				nonNilIdx = 1 - nonNilIdx
+			}
+			cut.AddEdges(Edge{b, nonNilIdx})
+		}
+	}
+	inst := fname(fn) + ":accepted ⇒ the check result's metadata was tested non-nil"
+	if len(targets) == 0 {
+		c.Fail("C16.frames", inst, c.P.Pos(fn.Pos()), "the list of accepted batch positions was not found in checkTxBatch (unresolved anchor)")
+		return
+	}
+	hit := Reach(fn, nil, nil, anyOf(targets), cut)
+	site := c.P.InstrPos(targets[0])
+	if hit != nil {
+		site = c.P.InstrPos(hit)
+	}
+	c.Check(hit == nil, "C16.frames", inst, site, "every path on which a position is recorded as accepted tests Meta != nil, or stores an error into the result, or is a path for results that are not a success", "a batch position is recorded as accepted on a path on which the result's optional metadata was never tested: checkTxBatch then dereferences a nil Meta for it — a runtime that answers a check with a successful result without metadata crashes the transaction check worker")
+}
+
+// c16Snapshots (F53–F55): the state-sync entry points of the multiplexer take snapshot metadata and chunks from
+// untrusted peers.
+func c16Snapshots(c *Ctx) {
+	const rule = "C16.snapshot"
+	const pk = "consensus/cometbft/abci"
+	if fn := c.needFn(rule, pk+".(*abciMux).ApplySnapshotChunk"); fn != nil {
+		c.Analysed[fname(fn)] = true
+		// (a) F53: when RestoreChunk fails and the restore does not go on (the chunk is neither "already restored" nor
+		// "corrupted, fetch again"), the multipart insert that OfferSnapshot started is aborted before the answer is
+		// returned; otherwise the next snapshot offered cannot be restored and state sync is given up.
+		var restore ssa.CallInstruction
+		var aborts []ssa.Instruction
+		for _, call := range callsIn(fn) {
+			switch calleeName(call) {
+			case "storage/mkvs/checkpoint.(Restorer).RestoreChunk", "iface:storage/mkvs/checkpoint.(Restorer).RestoreChunk":
+				restore = call
+			case "storage/mkvs/db/api.(NodeDB).AbortMultipartInsert", "iface:storage/mkvs/db/api.(NodeDB).AbortMultipartInsert":
+				aborts = append(aborts, call)
+			}
+		}
+		inst := fname(fn) + ":RestoreChunk failed and the restore is over ⇒ AbortMultipartInsert"
+		if restore == nil {
+			for _, call := range callsIn(fn) {
+				if strings.HasSuffix(calleeName(call), ".RestoreChunk") {
+					restore = call
+				}
+				if strings.HasSuffix(calleeName(call), ".AbortMultipartInsert") {
+					aborts = append(aborts, call)
+				}
+			}
+		}
+		if restore == nil {
+			c.Fail(rule, inst, c.P.Pos(fn.Pos()), "RestoreChunk call not found (unresolved anchor)")
+		} else {
+			fail, found := FailEdges(restore)
+			cut := NewCut().AddInstr(aborts...)
+			cut.AddEdges(HeldEdges(fn, `^call:.*errors\.Is\(.*RestoreChunk\(.*\)#1,\*global:storage/mkvs/checkpoint\.(ErrChunkAlreadyRestored|ErrChunkCorrupted)\)$`)...)
+			isRet := func(in ssa.Instruction) bool { _, ok := in.(*ssa.Return); return ok }
+			var hit ssa.Instruction
+			if found && len(fail) > 0 {
+				hit = Reach(fn, nil, fail, isRet, cut)
+			}
+			site := c.P.InstrPos(restore)
+			if hit != nil {
+				site = c.P.InstrPos(hit)
+			}
+			c.Check(found && len(fail) > 0 && len(aborts) > 0 && hit == nil, rule, inst, site, "every path from a RestoreChunk failure to a return aborts the multipart insert, except where the error is ErrChunkAlreadyRestored or ErrChunkCorrupted (the restore goes on)", "ApplySnapshotChunk answers a RestoreChunk failure that ends the restore without aborting the multipart insert that OfferSnapshot started: the node database keeps it open, the next snapshot offered fails StartMultipartInsert and is answered with ABORT — one peer with a bad chunk makes the node give up state sync")
+		}
+		// (b) F55: the current checkpoint is nil when no restore is in progress; it is dereferenced only where tested.
+		var cur ssa.Value
+		for _, call := range callsIn(fn) {
+			if strings.HasSuffix(calleeName(call), ".GetCurrentCheckpoint") {
+				cur = call.Value()
+			}
+		}
+		inst = fname(fn) + ":the current checkpoint is tested non-nil before it is dereferenced"
+		if cur == nil {
+			c.Fail(rule, inst, c.P.Pos(fn.Pos()), "GetCurrentCheckpoint call not found (unresolved anchor)")
+		} else {
+			cut := nonNilCut(fn, func(s ssa.Value) bool { return s == cur })
+			var derefs []ssa.Instruction
+			for _, b := range fn.Blocks {
+				for _, in := range b.Instrs {
+					if fa, ok := in.(*ssa.FieldAddr); ok && fa.X == cur {
+						derefs = append(derefs, in)
+					}
+				}
+			}
+			var hit ssa.Instruction
+			if len(derefs) > 0 {
+				hit = Reach(fn, nil, nil, anyOf(derefs), cut)
+			}
+			site := c.P.Pos(fn.Pos())
+			if hit != nil {
+				site = c.P.InstrPos(hit)
+			}
+			c.Check(len(derefs) > 0 && hit == nil, rule, inst, site, "all "+itoa(len(derefs))+" dereferences are behind the non-nil branch of a test", "the checkpoint returned by GetCurrentCheckpoint is dereferenced on a path on which it was not tested: it is nil when no restore is in progress (a chunk applied after the restorer aborted itself), and the node panics instead of answering ABORT")
+		}
+	}
+	// (c) F54: the multipart insert is started only for a root whose version is the snapshot height and whose type is the
+	// state root type — of the untrusted metadata, only the hash would otherwise be compared with trusted data.
+	if fn := c.needFn(rule, pk+".(*abciMux).OfferSnapshot"); fn != nil {
+		var start []ssa.Instruction
+		for _, call := range callsIn(fn) {
+			if strings.HasSuffix(calleeName(call), ".StartMultipartInsert") {
+				start = append(start, call)
+			}
+		}
+		ev := Ev{Name: "StartMultipartInsert", Fn: fn, Ins: start}
+		c.DominatedByCond(rule, fn, "root version == snapshot height", `\.Root\.Version == .*\.Snapshot\.Height$`, ev, "the root version in the (untrusted) checkpoint metadata must be the height of the offered snapshot: otherwise the state is restored and finalized under a version that is not the consensus height (or, for version 0, StartMultipartInsert fails and state sync is aborted instead of the snapshot being rejected)")
+		c.DominatedByCond(rule, fn, "root type == state root", `\.Root\.Type == 1$`, ev, "the root type in the (untrusted) checkpoint metadata must be the state root type")
+		c.DominatedByCond(rule, fn, "root hash == trusted app hash", `^common/crypto/hash\.\(\*Hash\)\.Equal\((.*Metadata\.Root\.Hash,.*|.*,.*Metadata\.Root\.Hash)\)$`, ev, "the root hash in the (untrusted) checkpoint metadata must be the trusted application hash")
 	}
 }
